@@ -111,7 +111,10 @@ Apply(raw, f) ==
     [] f.t = "repeat" /\ f.w = "sos1_bigm" -> [raw EXCEPT !.hints[1].sos1[1].bigm = Append(@, @[1])]
     [] f.t = "hint_on_removed" -> [raw EXCEPT !.hints[1].onehot[1].cid = raw.removed[1].c[1].id]
     [] OTHER -> raw
-Bases == {Base1, Base2}
+\* a removed-constraint entry WITHOUT a constraint body in front of the others: validate() skips it, and every rule still
+\* applies to the entries behind it
+Base3 == [Base1 EXCEPT !.removed = << [c |-> <<>>, reason |-> "blank", rparams |-> <<>>] >> \o @, !.hints = <<>>]
+Bases == {Base1, Base2, Base3}
 \* parametric variants: variable 2 (resp. 3) becomes a parameter; parameter faults
 P(id) == [id |-> id, name |-> <<>>, subs |-> <<>>, params |-> <<>>, desc |-> <<>>]
 PBase == [Base1 EXCEPT !.vars = SubSeq(@, 1, 1) \o SubSeq(@, 3, 5), !.parameters = << P(2), P(60) >>, !.hints = <<>>]
